@@ -7,6 +7,7 @@ import IpcHub.Lemmas.Hls
 import IpcHub.Lemmas.HlsFrames
 import IpcHub.Lemmas.HlsKey
 import IpcHub.Lemmas.HlsStore
+import IpcHub.Lemmas.HlsText
 import IpcHub.Model.HlsInst
 namespace IpcHub.Props.C10
 open IpcHub.Ts IpcHub.Hls IpcHub.HlsLemmas
@@ -99,6 +100,18 @@ theorem c10_exactly_once (frag rate : Nat) (hfrag : 1 ≤ frag) (fs : List Frame
   obtain ⟨h1, _, h3, h4, _⟩ := this
   exact ⟨h1, by simpa using h3, by simpa using h4⟩
 
+/-- The same for every fragment length the server can be configured with: `config.HlsFragment()`
+    returns the configured value raised to the regenerated minimum (`hlsFragmentMin`, 5 s), which
+    is at least one second — so on the running server no segment is ever dropped and every
+    source frame is in the segments exactly once, whatever `hlsfragment` says. -/
+theorem c10_exactly_once_configured (configured rate : Nat) (fs : List Frame) (g : Gen)
+    (h : Hls.writeFrames genCfg (max configured genCfg.minFragment) rate (initOf genCfg) fs = some g) :
+    g.dropped = []
+    ∧ videoOf genCfg (written g) = srcVideo genCfg fs
+    ∧ audioEs genCfg (written g) ++ cacheEs g = srcAudioEs genCfg fs :=
+  c10_exactly_once _ rate (by have : 1 ≤ genCfg.minFragment := by decide
+                              omega) fs g h
+
 /-- Why the fragment length matters: with hlsFragment = 0 (which only a caller bypassing
     config.HlsFragment can pass) every key frame reaps, a GOP shorter than 100 ms is closed below
     the minimum duration, its segment is deleted and its frames are lost.  -/
@@ -171,6 +184,50 @@ theorem c10_audio_reap_witness :
      | none => false) = true := by
   decide +kernel
 
+/-- the stream of `c10_first_segment_from_zero_counterexample`: stream time starts at 10 s (RTP
+    time stamps rarely start at 0): a key frame, an AAC frame, the next frame of the GOP -/
+def lateStartStream : List Frame :=
+  [ { pid := 256, streamId := 0xe0, dts := 900000, pts := 900000, header := [0,0,1], payload := [0x65, 1], key := true },
+    { pid := 257, streamId := 0xc0, dts := 900300, pts := 900300, header := [0xff,0xf1], payload := [0], key := false },
+    { pid := 256, streamId := 0xe0, dts := 903000, pts := 903000, header := [0,0,1], payload := [0x41, 2], key := false } ]
+
+/-- Why the first segment is timed from its first frame (fix 79c2429).  With the start time 0 of
+    the code before (`initWith false`), a stream whose time stamps begin at 10 s makes segment 1
+    look 10 s long: the very first audio frame reaps it (absolute overflow) and segment 2 begins
+    with the second frame of the GOP — not a key frame.  With the regenerated fact
+    (`firstFromFrame = true`) the three frames stay in segment 1.  Replayed on the implementation
+    by corpus/C10/witnesses.case. -/
+theorem c10_first_segment_from_zero_counterexample :
+    (match Hls.writeFrames genCfg 5 8000 (initWith false) lateStartStream with
+     | some g => (match g.current with
+        | some s => s.seq == 2 && s.byAudio && (match videoOf genCfg s.frames with | v :: _ => !v.key | [] => false)
+        | none => false)
+     | none => false) = true
+    ∧ (match Hls.writeFrames genCfg 5 8000 (initOf genCfg) lateStartStream with
+       | some g => (match g.current with
+          | some s => s.seq == 1 && s.start == 900000 && s.frames.length == 2
+          | none => false)
+       | none => false) = true := by
+  constructor <;> decide +kernel
+
+/-- The caller's token in the segment URIs: the model writes `?token=` followed by
+    `url.QueryEscape(token)` (regenerated fact `tokenEscaped`), and the text the specification's
+    reader of query values recovers from that is exactly the caller's token — for EVERY token made
+    of bytes, whatever characters it contains (`&`, `#`, `%`, spaces, line breaks, non-ASCII). -/
+theorem c10_token_roundtrip (token : List Char) (h : ∀ c ∈ token, c.toNat < 256) :
+    genCfg.tokenEscaped = true
+    ∧ IpcHub.HlsSpec.queryValue (queryEscape token) = some token :=
+  ⟨by decide, queryValue_escape token h⟩
+
+/-- … which the raw token of the code before fix a77ce75 did not satisfy: `a&b` written as it is
+    names the token `a`, `a b` or `50%` are no URI; the playlist model with `tokenEscaped := false`
+    writes exactly that. -/
+theorem c10_token_raw_counterexample :
+    IpcHub.HlsSpec.queryValue "a&b".toList = none
+    ∧ IpcHub.HlsSpec.uriSeq "/s".toList "a&b".toList "/streams/s/7.ts?token=a&b".toList = none
+    ∧ IpcHub.HlsSpec.uriSeq "/s".toList "a&b".toList "/streams/s/7.ts?token=a%26b".toList = some 7 := by
+  decide
+
 /-- Read stability under roll-over (storage LTS, every interleaving): with the regenerated fact
     `memoryGetCopies = true`, a reader obtained by `Segment(seq)` while the file of `seq` holds the
     bytes `x` delivers exactly `x` whenever it is read later — after ANY sequence of further
@@ -227,6 +284,9 @@ theorem c10_bounded (frag rate : Nat) (fs : List Frame) (g : Gen)
   cases g.current <;> simp <;> omega
 
 /-! ### non-vacuity -/
+
+/-- a token with reserved characters meets the hypothesis of `c10_token_roundtrip` -/
+example : ∀ c ∈ "k=v&x #\n".toList, c.toNat < 256 := by decide
 
 /-- a run of the model on a concrete stream (two GOPs of one second, fragment 1 s) succeeds
     and completes a segment -/
